@@ -49,7 +49,7 @@ try:
     rc, out = run(build, cwd=wt)
     if rc:
         raise SystemExit("pristine build failed")
-    demo = "sh %s/run_demo.sh %s" % (src, wt)
+    demo = "bash %s/run_demo.sh %s" % (src, wt)
     if not os.path.exists("%s/run_demo.sh" % src):
         raise SystemExit("no run_demo.sh")
     rc_clean, out = run(demo, cwd=src, timeout=1500)
